@@ -321,6 +321,14 @@ Theorem C07_jacobian_closed_forms : forall (cell : option RV) (mass : nat -> R) 
 Proof. exact thm_jacobian_closed_forms. Qed.
 Print Assumptions C07_jacobian_closed_forms.
 
+(* angle: jd = (pi/180) cot(theta) written in the geometry (cos(theta) = r21.r23/(|r21||r23|)), away from collinear groups *)
+Theorem C07_jacobian_angle : forall (cell : option RV) (mass : nat -> R) (pos : RF) (g1 g2 g3 : RG) (os : bool),
+  ang_cos Rops cell mass pos g1 g2 g3 * ang_cos Rops cell mass pos g1 g2 g3 < 1 ->
+  cvc_jd Rops PI cell mass pos (CAngle g1 g2 g3 os) =
+    PI / 180 * (ang_cos Rops cell mass pos g1 g2 g3 / sqrt (1 - ang_cos Rops cell mass pos g1 g2 g3 * ang_cos Rops cell mass pos g1 g2 g3)).
+Proof. exact thm_jacobian_angle. Qed.
+Print Assumptions C07_jacobian_angle.
+
 
 (* ------------------------------------------------------------------ the premises are satisfiable.
    System: unit masses; atoms 0..3 at (1,0,0) (0,0,0) (0,1,0) (0,1,1); G a = the group made of atom a. *)
